@@ -124,6 +124,73 @@ def worker(task: Tuple[Any, ...]) -> Stats:
     return st
 
 
+# ------------------------------------------------------------------------------------------------------------------
+# end-to-end slice: every history of depth <= 2 (thorough: a third of depth 3) through the REAL command line
+
+
+def cli_histories(tier: str) -> List[History]:
+    tree = Tree(FIRST, SYMBOLS, ("=", "h", "d"), EXTRA)
+    out: List[History] = []
+    for depth in (1, 2, 3) if tier == "thorough" else (1, 2):
+        for root in tree.roots(depth):
+            for k, hist in enumerate(tree.level(root, depth)):
+                if depth < 3 or k % 3 == 0:
+                    out.append(hist)
+    return out
+
+
+def cli_worker(chunk: List[History]) -> Stats:
+    import os
+
+    from rp2verif import frdriver as D
+    from rp2verif import sheets as S
+    from rp2verif.seams import cli
+
+    st = Stats()
+    for n, hist in enumerate(chunk):
+        specs = H.materialize(hist, uid=True)
+        if specs is None:
+            continue
+        verdict, acct, dip = MA.overdraft_verdict(specs)
+        globally_over = balance_track(hist)[0]
+        matrix, _ = D.to_sheet(specs, "B1")
+        ws = cli.Workspace(f"c08-{os.getpid()}-{n}")
+        try:
+            ini = ws.write("config.ini", S.ini_text(S.canonical_layout(), assets=("B1",)))
+            ods = cli.write_ods(os.path.join(ws.inp, "input.ods"), {"B1": matrix})
+            for neg in (False, True):
+                st.inc("cli_runs")
+                ws.clean_out()
+                res = cli.run_forked("us", ["-o", ws.out] + (["-n"] if neg else []) + [ini, ods], ws.cwd, ws.out)
+                reports = [f for f in res.outputs if f.endswith(".ods")]
+                text = res.stderr + res.stdout
+                tag = f"rp2_us{' -n' if neg else ''}: {H.hist_str(hist)}"
+                base = {"history": H.hist_str(hist), "hist": hist, "specs": specs, "schedule": [(1970, "fifo")], "allow_negative": neg, "deviation": "cli"}
+                must_fail = globally_over or (verdict == "must_reject" and not neg)
+                must_pass = not globally_over and (neg or verdict == "must_accept")
+                if must_fail:
+                    st.inc("cli_must_fail")
+                    if res.exit == 0 or reports:
+                        st.violation(dict(base, signature="C08 cli: overdrawing history produced a report", what=f"{tag} :: exit {res.exit}, reports {reports}"))
+                    elif not globally_over and acct is not None and not any(f'"{a[0]}"' in text and f'"{a[1]}"' in text for a in MA.balances(specs)):
+                        st.violation(dict(base, signature="C08 cli: error does not name the account", what=f"{tag} :: {text.strip().splitlines()[-1][:200] if text.strip() else ''}"))
+                elif must_pass:
+                    st.inc("cli_must_pass")
+                    if res.exit != 0 or len(reports) != 3:
+                        st.violation(dict(base, signature="C08 cli: history without overdraft failed", what=f"{tag} :: exit {res.exit}, reports {reports}: {text.strip().splitlines()[-1][:200] if text.strip() else ''}"))
+                else:
+                    st.inc("cli_either")
+        finally:
+            ws.remove()
+    return st
+
+
+def cli_init() -> None:
+    from rp2verif.seams import cli
+
+    cli.preload()
+
+
 def plan(tier: str) -> List[Dict[str, Any]]:
     fifo = [((1970, "fifo"),)]
     if tier == "quick":
@@ -142,7 +209,19 @@ def plan(tier: str) -> List[Dict[str, Any]]:
 def main(tier: str, budget_s: Optional[float] = None) -> int:
     t0 = time.time()
     deadline = t0 + (budget_s or (240 if tier == "quick" else 3000))
+    # the end-to-end slice first: the forking workers must be rp2-free, and so is this process
+    hs = cli_histories(tier)
+    nchunks = max(1, min(len(hs), common.NPROC * 4))
+    cli_results, cli_done = common.pmap(cli_worker, [hs[i::nchunks] for i in range(nchunks)], deadline=deadline, init=cli_init)
+    cli_total = Stats()
+    for r in cli_results:
+        if r is not None:
+            cli_total.merge(r)
     total, info, complete = run_phases(plan(tier), worker, FIRST, SYMBOLS, EXTRA, deadline)
+    total.merge(cli_total)
+    complete = complete and cli_done == nchunks
+    info.append({"phase": "end-to-end: every history of depth <= 2 through the real command line, without and with -n", "histories": len(hs),
+                 "cli_runs": cli_total.get("cli_runs"), "must_fail": cli_total.get("cli_must_fail"), "must_pass": cli_total.get("cli_must_pass"), "either": cli_total.get("cli_either")})
     new, matched = common.report(PROP, total.violations)
     coverage = {
         "states": total.get("states"),
@@ -168,7 +247,7 @@ def main(tier: str, budget_s: Optional[float] = None) -> int:
     common.write_evidence(PROP, tier, LEVEL, coverage, time.time() - t0, new, assumptions=[
         "inside a group of equal instants the property fixes no order: only outcomes common to all orders are demanded",
         "dips between -1e-10 and 0 may go either way (the code's effective tolerance is 5e-11)",
-        "'no report is produced' on rejection is decided end-to-end by C12's CLI sweep, not here",
+        "'no report is produced' is decided end to end for every history of depth <= 2 (real CLI: exit status, message naming the account, empty output directory)",
     ])
     print(f"{PROP} {tier}: states={total.get('states')} must_reject_ok={total.get('must_reject_ok')} must_accept_ok={total.get('must_accept_ok')} "
           f"either={total.get('either_zone')} violations={total.get('violations_total')} (unlisted {new}) exhaustive={complete} wall={time.time() - t0:.1f}s")
@@ -185,7 +264,13 @@ def replay(path: str) -> int:
     with open(path, encoding="utf-8") as f:
         p = json.load(f)
     st = Stats()
-    judge_one(st, _to_tuple(p["hist"]), p["specs"], [tuple(x) for x in p["schedule"]], p.get("deviation", ""))
+    if p.get("deviation") == "cli":
+        import multiprocessing as mp
+
+        with mp.get_context("fork").Pool(1, initializer=cli_init) as pool:
+            st = pool.apply(cli_worker, ([_to_tuple(p["hist"])],))
+    else:
+        judge_one(st, _to_tuple(p["hist"]), p["specs"], [tuple(x) for x in p["schedule"]], p.get("deviation", ""))
     if st.violations:
         print(f"VIOLATION property={PROP} replay={path}\n  {st.violations[0]['what']}")
         return 1
